@@ -7,65 +7,73 @@ import PyGqlModel.Lemmas.LexBlockString
 namespace PyGql.StringUtils
 open PyGql.BlockString
 
-def countLF : Text → Nat
+open PyGql.Response (indexToLocLoop)
+
+/-- number of line ends `index_to_loc` counts (fix X4): LF, lone CR; the CR of CRLF has no width -/
+def countEnds : Text → Nat
   | [] => 0
-  | c :: t => (if c = 10 then 1 else 0) + countLF t
+  | c :: t =>
+    (if c = 10 then 1 else if c = 13 then (if t.head? = some 10 then 0 else 1) else 0) + countEnds t
 
-theorem locLoop_line_le (p off lines cols : Nat) (body : Text) :
-    (locLoop p off lines cols body).1 ≤ lines + 1 + countLF body := by
-  induction body generalizing off lines cols with
-  | nil => simp [locLoop, countLF]
+theorem locLoop_line_le (body : Text) (p lines cols : Nat) :
+    (indexToLocLoop body p lines cols).1 ≤ lines + 1 + countEnds body := by
+  induction body generalizing p lines cols with
+  | nil => simp [indexToLocLoop, countEnds]
   | cons c t ih =>
-    simp only [locLoop, countLF]
-    split
-    · dsimp only; omega
-    · split
-      · have := ih (off + 1) (lines + 1) 0
-        omega
-      · have := ih (off + 1) lines (cols + 1)
-        omega
+    cases p with
+    | zero => simp [indexToLocLoop]
+    | succ p =>
+      simp only [indexToLocLoop, countEnds]
+      by_cases h10 : c = 10
+      · simp only [h10, ↓reduceIte]; have := ih p (lines + 1) 0; omega
+      · by_cases h13 : c = 13
+        · subst h13
+          simp only [Nat.reduceEqDiff, ↓reduceIte]
+          by_cases hh : t.head? = some 10
+          · simp only [hh, ↓reduceIte]; have := ih p lines cols; omega
+          · simp only [hh, ↓reduceIte]; have := ih p (lines + 1) 0; simp at this ⊢; omega
+        · simp only [h10, h13, ↓reduceIte]; have := ih p lines (cols + 1); omega
 
-theorem locLoop_line_pos (p off lines cols : Nat) (body : Text) :
-    1 ≤ (locLoop p off lines cols body).1 := by
-  induction body generalizing off lines cols with
-  | nil => simp [locLoop]
+theorem locLoop_line_pos (body : Text) (p lines cols : Nat) :
+    1 ≤ (indexToLocLoop body p lines cols).1 := by
+  induction body generalizing p lines cols with
+  | nil => simp [indexToLocLoop]
   | cons c t ih =>
-    simp only [locLoop]
-    split
-    · simp
-    · split
-      · exact ih _ _ _
-      · exact ih _ _ _
+    cases p with
+    | zero => simp [indexToLocLoop]
+    | succ p =>
+      simp only [indexToLocLoop]
+      repeat' split
+      all_goals exact ih _ _ _
 
-theorem countLF_lt_splitLinesAux (b : Bool) (body : Text) :
-    countLF body < (splitLinesAux b body).length + (if b then 1 else 0) := by
+theorem splitLinesAux_length (b : Bool) (body : Text) :
+    (splitLinesAux b body).length + (if b = true ∧ body.head? = some 10 then 1 else 0) = countEnds body + 1 := by
   induction body generalizing b with
-  | nil => cases b <;> simp [countLF, splitLinesAux]
+  | nil => simp [countEnds, splitLinesAux]
   | cons c t ih =>
-    simp only [countLF, splitLinesAux]
-    split
-    · rename_i hc
-      split
-      · rename_i hb; subst hb
-        have := ih false; simp at this ⊢; omega
-      · rename_i hb
-        have hb' : b = false := by cases b <;> simp_all
-        subst hb'
-        have := ih false; simp at this ⊢; omega
-    · split
-      · have := ih true; simp at this ⊢
-        cases b <;> simp <;> omega
+    simp only [countEnds, splitLinesAux, List.head?_cons]
+    by_cases h10 : c = 10
+    · subst h10
+      have := ih false
+      cases b <;> simp at this ⊢ <;> omega
+    · by_cases h13 : c = 13
+      · subst h13
+        have := ih true
+        by_cases hh : t.head? = some 10
+        · simp [hh] at this ⊢; omega
+        · simp [hh] at this ⊢; omega
       · have := ih false
         have hne := splitLinesAux_ne_nil false t
         cases hs : splitLinesAux false t with
         | nil => exact absurd hs hne
         | cons l ls =>
-          rw [hs] at this; simp at this ⊢
-          cases b <;> simp <;> omega
+          rw [hs] at this
+          have hc : ¬ (some c = some 10) := by simpa using h10
+          simp [h10, h13] at this ⊢; omega
 
-theorem countLF_lt_splitLines (body : Text) : countLF body < (splitLines body).length := by
-  have := countLF_lt_splitLinesAux false body
-  simpa [splitLines] using this
+theorem countEnds_lt_splitLines (body : Text) : countEnds body < (splitLines body).length := by
+  have := splitLinesAux_length false body
+  simp [splitLines] at this ⊢; omega
 
 theorem mapM_getElem?_isSome {α} (xs : List α) (a k : Nat) (h : a + k ≤ xs.length) :
     ((List.range' a k).mapM (fun l => xs[l]?)).isSome = true := by
@@ -80,20 +88,20 @@ theorem mapM_getElem?_isSome {α} (xs : List α) (a k : Nat) (h : a + k ≤ xs.l
     | some r => simp [List.getElem?_eq_getElem h1]
 
 theorem indexToLoc_isSome (body : Text) (p : Nat) (h : p ≤ body.length) :
-    ∃ l c, indexToLoc body p = some (l, c) ∧ 1 ≤ l ∧ l ≤ 1 + countLF body := by
-  unfold indexToLoc
+    ∃ l c, indexToLoc body p = some (l, c) ∧ 1 ≤ l ∧ l ≤ 1 + countEnds body := by
+  unfold indexToLoc Response.indexToLoc
   split
   · exact ⟨1, 1, rfl, Nat.le_refl _, by omega⟩
   · have : ¬ p > body.length := by omega
     simp only [this, ↓reduceIte]
-    refine ⟨_, _, rfl, locLoop_line_pos _ _ _ _ _, ?_⟩
-    have := locLoop_line_le p 0 0 0 body
+    refine ⟨_, _, rfl, locLoop_line_pos _ _ _ _, ?_⟩
+    have := locLoop_line_le body p 0 0
     omega
 
 theorem highlightLocation_isSome (body : Text) (p : Nat) (h : p ≤ body.length) :
     (highlightLocation body p).isSome = true := by
   obtain ⟨l, c, hloc, h1, h2⟩ := indexToLoc_isSome body p h
-  have hlen := countLF_lt_splitLines body
+  have hlen := countEnds_lt_splitLines body
   unfold highlightLocation
   simp only [hloc, bind, Option.bind]
   have hcur : l - 1 < (splitLines body).length := by omega
